@@ -410,7 +410,7 @@ func generate() (list []*scenario, lattice map[string]int) {
 		}
 	}
 	// (2) mixed kinds, seeded
-	n := h.Pick(400, 4000)
+	n := h.Pick(400, 30000)
 	r := h.Rng(10, 2)
 	for i := 0; i < n; i++ {
 		pos := r.Intn(3)
@@ -662,7 +662,7 @@ func Run(id string, start time.Time) int {
 		}
 		defer os.RemoveAll(proj)
 		res := h.CLI{Bin: bin, Dir: filepath.Join(proj, sc.cwd), Args: sc.args, Env: sc.env, Timeout: 120 * time.Second}.Run()
-		nontrivial := len(sc.Defs) >= 2 || (sc.Family == "env" && sc.Env.count() >= 2) || (sc.Family == "special" && len(sc.Defs) == 0)
+		nontrivial := len(sc.Defs)+len(sc.Comp) >= 2 || (sc.Family == "env" && sc.Env.count() >= 2) || (sc.Family == "special" && len(sc.Defs) == 0)
 		part.Eval(sc.key(), nontrivial)
 		part.Count("cli_runs", 1)
 		part.Count("runs."+sc.Family, 1)
@@ -713,7 +713,7 @@ func Run(id string, start time.Time) int {
 		ID: id, Level: "exploration", Start: start, MinEvents: 500, EventsKey: "probes_observed", Exhaustive: &yes,
 		Rule: "one case = one CLI run in a generated project; the probed name is defined at a subset of the definition sites, each definition carrying a value that names its site and kind, the probe prints {{.NAME}} (or $NAME for the env lattice) and the oracle compares with the value the documented order gives. A template-kind definition at site s is 's({{.L_s}})' where the companion L_s is defined (literal or sh:) at a subset of the lower-priority sites, so the value also shows which definition the template inside the winning definition saw. " +
 			"Enumerated exhaustively (exhaustive=true refers to this sub-space): template variables: every subset of {task vars, call vars, included-Taskfile vars, include-statement vars, OS env} x {no global, root Taskfile global, CLI NAME=value} x uniform kind {literal, sh, ref} x task position {root, include depth 1, depth 2} (sites that do not exist for a position dropped, duplicates removed); template kind: position x winning site w (template) x every subset C of the lower-priority sites defining the companion x companion kind {literal, sh} x {name defined at w only, also at C}; special variables: 10 names x position x every subset of the Taskfile/CLI sites (literal) in the thorough tier, in the quick tier every subset for 3 seed-chosen names and {} plus singletons for the other 7; env: every subset of {task env, task dotenv file 1, file 2, process env} x {no global, global env, global dotenv} x {experiment off, on} x kind {literal, sh} x position. " +
-			"Seeded: mixed-kind scenarios (each site independently present with p=0.6, kind uniform). distinct key = (family, position, name, site.kind list); non-trivial = at least two sites define the name (a precedence decision is made) or, for special variables, no site defines it (availability is decided).",
+			"Seeded: mixed-kind scenarios (each site independently present with p=0.6, kind uniform). distinct key = (family, position, name, site.kind list); non-trivial = at least two definitions are in play (of the name, or of the name and the companion its template reads: a precedence or visibility decision is made) or, for special variables, no site defines it (availability is decided).",
 		Assumptions: []string{
 			"a root Taskfile global and a CLI assignment of one name, an intermediate include's vars at depth 2, global env vs global dotenv of one name, and the OS environment vs a special variable are not ordered by the statement/documentation and are never both defined",
 			"values are plain ASCII words; quoting is C19's subject",
